@@ -95,8 +95,13 @@ func runC03(r *core.Run) {
 		// clock
 		if r.Chance(15, "clock-backward?") {
 			back := a.Now.Add(-time.Duration(r.Intn(200, "back-days")) * 24 * time.Hour)
-			if back.After(rootStart) {
+			// an operator's --timestamp may also predate the bootstrap's (backdated rotations and
+			// documents): the windows below are the intersection of both certificates' validities
+			if back.After(rootStart.Add(-100 * 24 * time.Hour)) {
 				a.Now = back
+				if back.Before(rootStart) {
+					r.Probe("clock-before-root-validity")
+				}
 			}
 		} else {
 			d := time.Duration(r.Intn(500, "advance-days"))*24*time.Hour + time.Duration(r.Intn(86400, "advance-seconds"))*time.Second
